@@ -66,7 +66,7 @@ def install_cut(W, ctx):
             new = memo["new"]
             lo, hi = SReal.of(self.stpmin), SReal.of(self.stpmax)
             r1, r2 = new >= lo, new <= hi
-            c.assume(z3.And(r1 if isinstance(r1, bool) else r1.e, r2 if isinstance(r2, bool) else r2.e))
+            c.assume(z3.And(r1 if isinstance(r1, bool) else r1.e, r2 if isinstance(r2, bool) else r2.e), contract="dcsrch_tail")
             return new, f, g, b"FG"
     dcs.dcstep = cut
     dcs.DCSRCH._iterate = iterate
